@@ -347,8 +347,23 @@ func (x *Exec) newIterator(st *State, h *storeHandle, reverse bool, pos string) 
 	data := map[string]Val{"id": idT, "n": n, "snap": snap, "world": IntLit(int64(h.World)), "name": T{S: h.Name}}
 	var fam *Family
 	var fixed []T
+	lastIsPrefix := false
 	if h.Prefix != nil {
 		fam, fixed, _ = x.classifyKey(h.Name, *h.Prefix, true)
+		// a literal as the last provided segment of a string component is a byte prefix of that component
+		// (e.g. the type byte of an outgoing-tx store index), not the whole component
+		if n := len(fixed); n > 0 && fam.Segs[n-1] == "str" {
+			segs := h.Prefix.Segs
+			if segs[len(segs)-1].Kind == "const" {
+				lastIsPrefix = true
+			}
+		}
+	}
+	fixedCond := func(a int, f T, k string) string {
+		if lastIsPrefix && a == len(fixed)-1 {
+			return fmt.Sprintf("(str.prefixof %s (K_%s_%d %s))", f.S, fam.Name, a, k)
+		}
+		return fmt.Sprintf("(= (K_%s_%d %s) %s)", fam.Name, a, k, f.S)
 	}
 	posObj := x.e.newObj(st, IntLit(0))
 	data["pos"] = IntLit(int64(posObj))
@@ -361,16 +376,19 @@ func (x *Exec) newIterator(st *State, h *storeHandle, reverse bool, pos string) 
 		data["fam"] = T{S: fam.Name}
 		member = append(member, fmt.Sprintf("((_ is K_%s) %s)", fam.Name, kI))
 		for a, f := range fixed {
-			member = append(member, fmt.Sprintf("(= (K_%s_%d %s) %s)", fam.Name, a, kI, f.S))
+			member = append(member, fixedCond(a, f, kI))
 		}
 		data["nfixed"] = IntLit(int64(len(fixed)))
+		if lastIsPrefix {
+			data["nfixed"] = IntLit(int64(len(fixed) - 1))
+		}
 	}
 	member = append(member, fmt.Sprintf("((_ is some) (select %s %s))", snap.S, kI))
 	st.assume(T{S: fmt.Sprintf("(forall ((i Int)) (! (=> (and (<= 0 i) (< i %s)) (and %s)) :pattern (%s)))", n.S, strings.Join(member, " "), kI), So: SBool}, "iterator yields present keys of its prefix")
 	// strict order on the varying integer suffix (when all varying segments are integers), else distinctness
 	ordered := false
 	if fam != nil {
-		allInt := len(fixed) < len(fam.Segs)
+		allInt := len(fixed) < len(fam.Segs) && !lastIsPrefix
 		for a := len(fixed); a < len(fam.Segs); a++ {
 			if fam.Segs[a] == "str" {
 				allInt = false
@@ -404,7 +422,7 @@ func (x *Exec) newIterator(st *State, h *storeHandle, reverse bool, pos string) 
 	if fam != nil {
 		dom = append(dom, fmt.Sprintf("((_ is K_%s) k)", fam.Name))
 		for a, f := range fixed {
-			dom = append(dom, fmt.Sprintf("(= (K_%s_%d k) %s)", fam.Name, a, f.S))
+			dom = append(dom, fixedCond(a, f, "k"))
 		}
 	}
 	dom = append(dom, fmt.Sprintf("((_ is some) (select %s k))", snap.S))
